@@ -98,6 +98,8 @@ pub enum Yield {
     Tok(Tok),
     Err(ErrTok),
     Vec(Vec<Tok>),
+    /// result of a join whose inputs have a zero-sized output: only the length is left
+    Units(usize),
     Unit,
 }
 
@@ -476,6 +478,21 @@ impl Subject for SJoinPlain {
     reloc!();
 }
 
+pub struct SJoinUnit(pub JoinAll<UnitChild>);
+impl Subject for SJoinUnit {
+    fn poll(&mut self, cx: &mut Context<'_>) -> Polled {
+        let _g = enter_crate();
+        match Pin::new(&mut self.0).poll(cx) {
+            Poll::Pending => Polled::Pending,
+            Poll::Ready(v) => Polled::Item(Yield::Units(v.len())),
+        }
+    }
+    fn obs(&self) -> Obs {
+        Obs::default()
+    }
+    reloc!();
+}
+
 pub struct STryJoin(pub TryJoinAll<TryChild>);
 impl Subject for STryJoin {
     fn poll(&mut self, cx: &mut Context<'_>) -> Polled {
@@ -642,6 +659,11 @@ pub fn make(kind: Kind, ctor: Ctor, cap: usize, ids: &[u32], start: Option<usize
             let v: Vec<PlainChild> = ids.iter().map(|i| PlainChild { id: *i }).collect();
             let _g = enter_crate();
             Box::new(SJoinPlain(join_all(it(v, inexact))))
+        }
+        Kind::JoinAll if w.unit_join.get() => {
+            let v: Vec<UnitChild> = ids.iter().map(|i| UnitChild(Child::new(*i))).collect();
+            let _g = enter_crate();
+            Box::new(SJoinUnit(join_all(it(v, inexact))))
         }
         Kind::JoinAll => {
             let v: Vec<Child> = ids.iter().map(|i| Child::new(*i)).collect();
